@@ -441,6 +441,13 @@ func (pso *PubSubOwner) UnmarshalXML(d *xml.Decoder, start xml.StartElement) err
 				if err != nil {
 					return err
 				}
+			case "set":
+				rs := ResultSet{}
+				err = d.DecodeElement(&rs, &tt)
+				pso.ResultSet = &rs
+			default:
+				// Consume unknown children whole: only our own end tag ends the element.
+				err = d.Skip()
 			}
 			if err != nil {
 				return err
